@@ -31,7 +31,7 @@ Open Scope N_scope.
 (* `segments s` is THE decomposition of s into maximal secret-character runs and gaps *)
 Theorem C08_decomposition :
   forall s, decomposition s (segments s) /\ forall l, decomposition s l -> l = segments s.
-Proof. exact (fun s => conj (segments_decomposition s) (decomposition_unique s)). Qed.
+Proof. exact decomposition_char. Qed.
 Print Assumptions C08_decomposition.
 
 (* the output is the input with every maximal run of admissible length that the classifier flags replaced
